@@ -61,7 +61,7 @@ class ModuleImports:
 
         while assignments:
             assignment = assignments.pop()
-            if isinstance(assignment, ast.List):
+            if isinstance(assignment, (ast.List, ast.Tuple)):
                 stack = list(assignment.elts)
                 while stack:
                     el = stack.pop()
